@@ -601,7 +601,9 @@ impl<D: Debug + Copy + Clone, N: MeasurementNoiseEstimator<MeasurementDelay = D>
             p, "Wander estimate update"
         );
         if self.precision_score <= -algo_config.precision_hysteresis {
-            self.clock_wander /= 4.0;
+            // Never let the wander estimate underflow to zero, as that makes the
+            // filter uncertainty singular for perfectly constant measurements.
+            self.clock_wander = (self.clock_wander / 4.0).max(f64::MIN_POSITIVE.sqrt());
             self.precision_score = 0;
             debug!(
                 wander = self.clock_wander.sqrt(),
